@@ -5,7 +5,7 @@
 From Coq Require Import ZArith List.
 From MomoCommon Require Import GenPrelude.
 From C16 Require Gen_Log2_64 Gen_Log2_32 Gen_SegSqrt Gen_SegCnst Fast Log2_Proofs SegMath SegSqrt_Proofs SegCnst_Proofs
-  SegModel SegModel_Inst Gen_ArrSqrt Gen_ArrCnst Arr_Proofs Arr_Inst.
+  SegModel SegModel_Inst Gen_ArrSqrt Gen_ArrCnst Gen_ArrLog Arr_Proofs Arr_Inst.
 Local Open Scope Z_scope.
 
 (* UIntMath<size_t>::Log2 (de Bruijn multiplication + table after the or-shift cascade) is the integer
@@ -475,15 +475,26 @@ Theorem C16_sqrt_arr_SetCountCrt_down : forall L, 0 <= L <= 62 -> forall alloc s
 Proof. exact Arr_Inst.sqrt_SetCountCrt_down_spec. Qed.
 Print Assumptions C16_sqrt_arr_SetCountCrt_down.
 
-(* any sizing functions: SetCountCrt (incl. upwards through pvIncCount's nested construction loops), whenever it returns, has written no
-   table entry below the old segment count and has only appended segments.  PARTIAL: termination / absence of a failed assertion of the
-   construction loops of pvIncCount is not proved (it is exercised by corr:generated-container on every run) *)
-Theorem C16_arr_SetCountCrt_frame_partial : forall seg idx cnt alloc segs n c count segs' n' c',
-  0 <= n < 2 ^ 63 -> 0 <= fst (seg count) < 2 ^ 63 ->
-  Gen_ArrSqrt.SetCountCrt seg idx cnt alloc segs n c count = Ok (tt, segs', n', c') ->
-  (forall i, i < n -> segs' i = segs i) /\ n <= n'.
-Proof. exact Arr_Proofs.SetCountCrt_frame_partial. Qed.
-Print Assumptions C16_arr_SetCountCrt_frame_partial.
+(* sqrt: SetCountCrt, FULL spec (round 6; replaces the partial frame theorem): in every state satisfying the invariant and for every
+   count < 2^62 the regenerated SetCountCrt -- incl. pvIncCount's nested construction loops and pvDecCount's destruction loop -- never fails
+   an assertion or runs out of fuel, ends with exactly `count` elements, writes no existing table entry, only appends segments when
+   growing and leaves the table alone when shrinking, and keeps the invariant *)
+Theorem C16_sqrt_arr_SetCountCrt : forall L, 0 <= L <= 62 -> forall alloc segs n c count, Arr_Proofs.ginv (Gen_SegSqrt.GetSegItemIndexes L) SegModel_Inst.maxi (SegModel_Inst.SCq L) n c -> 0 <= count < SegModel_Inst.maxi ->
+  exists segs' n', Gen_ArrSqrt.SetCountCrt (Gen_SegSqrt.GetSegItemIndexes L) (Gen_SegSqrt.GetIndex L) (Gen_SegSqrt.GetItemCount L) alloc segs n c count = Ok (tt, segs', n', count) /\
+    (forall i, i < n -> segs' i = segs i) /\ n <= n' /\ (count <= c -> segs' = segs /\ n' = n) /\ Arr_Proofs.ginv (Gen_SegSqrt.GetSegItemIndexes L) SegModel_Inst.maxi (SegModel_Inst.SCq L) n' count.
+Proof. exact Arr_Inst.sqrt_SetCountCrt_spec. Qed.
+Print Assumptions C16_sqrt_arr_SetCountCrt.
+
+(* cnst: SetCountCrt, FULL spec (round 6; replaces the partial frame theorem): in every state satisfying the invariant and for every
+   count < 2^62 the regenerated SetCountCrt -- incl. pvIncCount's nested construction loops and pvDecCount's destruction loop -- never fails
+   an assertion or runs out of fuel, ends with exactly `count` elements, writes no existing table entry, only appends segments when
+   growing and leaves the table alone when shrinking, and keeps the invariant *)
+Theorem C16_cnst_arr_SetCountCrt : forall L, 0 <= L <= 62 -> forall alloc segs n c count, Arr_Proofs.ginv (Gen_SegCnst.GetSegItemIndexes L) SegModel_Inst.maxi (SegModel_Inst.SCc L) n c -> 0 <= count < SegModel_Inst.maxi ->
+  exists segs' n', Gen_ArrCnst.SetCountCrt (Gen_SegCnst.GetSegItemIndexes L) (Gen_SegCnst.GetIndex L) (fun _ : Z => Gen_SegCnst.GetItemCount L) alloc segs n c count = Ok (tt, segs', n', count) /\
+    (forall i, i < n -> segs' i = segs i) /\ n <= n' /\ (count <= c -> segs' = segs /\ n' = n) /\ Arr_Proofs.ginv (Gen_SegCnst.GetSegItemIndexes L) SegModel_Inst.maxi (SegModel_Inst.SCc L) n' count.
+Proof. exact Arr_Inst.cnst_SetCountCrt_spec. Qed.
+Print Assumptions C16_cnst_arr_SetCountCrt.
+
 
 (* the three MOMO_CHECKs of the regenerated code fail (assertion mode) exactly outside their domain *)
 Theorem C16_arr_checks_stuck : forall seg cnt segs n c x,
@@ -492,3 +503,25 @@ Theorem C16_arr_checks_stuck : forall seg cnt segs n c x,
   (c < x -> Gen_ArrSqrt.RemoveBack seg cnt segs n c x = Stuck).
 Proof. exact Arr_Proofs.checks_stuck. Qed.
 Print Assumptions C16_arr_checks_stuck.
+
+(* sqrt: WHICH slots pvDecCount destroys.  Gen_ArrLog.pvDecCount is pvDecCount translated with a ghost log of the
+   ItemTraits::Destroy(memManager, pointer, n) calls: (pointer, n) is appended per call.  The m logged runs are, in call order,
+   (mSegments[s] + j0, r) with [j0, j0 + r) inside segment s, and their index ranges [GetIndex(s,0) + j0, … + r) tile exactly
+   [count, oldCount) from the top downwards (Arr_Proofs.tiles): nothing below `count` and nothing outside the array is destroyed *)
+Theorem C16_sqrt_arr_pvDecCount_destroys : forall L, 0 <= L <= 62 -> forall segs n c glog gn count, 0 <= count <= c -> c < SegModel_Inst.maxi ->
+  exists glog' m, Gen_ArrLog.pvDecCount (Gen_SegSqrt.GetSegItemIndexes L) (Gen_SegSqrt.GetItemCount L) segs n c glog gn count = Ok (tt, count, glog', gn + 2 * Z.of_nat m) /\
+    (forall i, i < gn -> glog' i = glog i) /\
+    Arr_Proofs.tiles (Gen_SegSqrt.GetIndex L) (Gen_SegSqrt.GetItemCount L) (SegModel_Inst.SCq L) glog' segs m gn c count.
+Proof. exact Arr_Inst.sqrt_pvDecCount_log. Qed.
+Print Assumptions C16_sqrt_arr_pvDecCount_destroys.
+
+(* cnst: WHICH slots pvDecCount destroys.  Gen_ArrLog.pvDecCount is pvDecCount translated with a ghost log of the
+   ItemTraits::Destroy(memManager, pointer, n) calls: (pointer, n) is appended per call.  The m logged runs are, in call order,
+   (mSegments[s] + j0, r) with [j0, j0 + r) inside segment s, and their index ranges [GetIndex(s,0) + j0, … + r) tile exactly
+   [count, oldCount) from the top downwards (Arr_Proofs.tiles): nothing below `count` and nothing outside the array is destroyed *)
+Theorem C16_cnst_arr_pvDecCount_destroys : forall L, 0 <= L <= 62 -> forall segs n c glog gn count, 0 <= count <= c -> c < SegModel_Inst.maxi ->
+  exists glog' m, Gen_ArrLog.pvDecCount (Gen_SegCnst.GetSegItemIndexes L) (fun _ : Z => Gen_SegCnst.GetItemCount L) segs n c glog gn count = Ok (tt, count, glog', gn + 2 * Z.of_nat m) /\
+    (forall i, i < gn -> glog' i = glog i) /\
+    Arr_Proofs.tiles (Gen_SegCnst.GetIndex L) (fun _ : Z => Gen_SegCnst.GetItemCount L) (SegModel_Inst.SCc L) glog' segs m gn c count.
+Proof. exact Arr_Inst.cnst_pvDecCount_log. Qed.
+Print Assumptions C16_cnst_arr_pvDecCount_destroys.
